@@ -410,9 +410,13 @@ func (w *world) nextRequest(r *rng.R, c int) []byte {
 		w.tagset["backend-error"] = true
 		return bulk([]byte("get"), key("err"))
 	case 9:
-		if r.Chance(50) {
+		if r.Chance(35) {
 			w.tagset["moved"] = true
 			return bulk([]byte("get"), key("mov"))
+		}
+		if r.Chance(30) {
+			w.tagset["ask"] = true
+			return bulk([]byte("get"), key("ask"))
 		}
 		w.tagset["split"] = true
 		return bulk([]byte("mget"), key("a"), key("berr"), key("c"))
